@@ -30,6 +30,7 @@ func TestC08WholePackets(t *testing.T) {
 		}
 		h.appStep("first connect")
 
+		final := false
 		successCheck := func(c *sim.Call) {
 			if !h.IsDone(c) {
 				return
@@ -37,7 +38,10 @@ func TestC08WholePackets(t *testing.T) {
 			r := c.Meta.(*Req)
 			ok := c.Err == nil
 			if c.Exch != nil {
-				ok = ok && len(c.ExchErrs) == 0
+				// (a submission error arrives on the exchange channel
+				// asynchronously; the persisted publishes are judged at the
+				// end, when every accepted one must be on a wire completely)
+				ok = ok && len(c.ExchErrs) == 0 && final
 			}
 			if !ok {
 				return
@@ -151,6 +155,8 @@ func TestC08WholePackets(t *testing.T) {
 		})
 
 		h.drain(h.allPersistedDone)
+		final = true
+		h.PollExchanges()
 		for _, c := range h.Calls {
 			successCheck(c)
 		}
